@@ -8,6 +8,8 @@ def run(tier, seed):
     c07.NOT_COVERED.clear()
     for ob in c07.c07_obligations(tier):
         rep.add(ob)
+    for ob in c07.solved_hierarchy_obligations(tier):
+        rep.add(ob)
     from ..symnum import odeint_body
     for ob in odeint_body.obligations():
         rep.add(ob)
@@ -18,7 +20,6 @@ def run(tier, seed):
                        'tau, gamma, rho, which must coincide between models that are claimed to produce the same curves. Bounded (order, graphs) '
                        'and only a necessary condition; the semiconjugacy + ODE-uniqueness argument is cited, not machine-checked.')
     rep.assumptions += ['odeint contract stub; sympy simplification', 'M (cited): semiconjugacy of the flows + uniqueness of ODE solutions give equality of the whole curves']
-    rep.not_covered += list(dict.fromkeys(c07.NOT_COVERED)) + ['node-level individual-based / pair-based models vs the homogeneous models on regular graphs',
-                                                               'agreement of the numerical integrator "to solver tolerance"']
+    rep.not_covered += [x + ' (compared through real numeric solves instead)' for x in dict.fromkeys(c07.NOT_COVERED)]
     rep.trusted = ['sympy', 'vlib/symnum/harness.py']
     return rep, (lambda ob: dict(failure_exhibited=True, how='exact Lie derivatives computed from the real code', input=ob.witness) if ob.witness else None)
